@@ -104,6 +104,7 @@ let message = function
   | DocSem.UDepOutside -> explode "derived factor depends on a factor outside the design"
   | DocSem.UEmptyCrossing -> explode "empty crossing"
   | DocSem.UStrided -> explode "run-length constraint on a strided factor: documentation silent"
+  | DocSem.UHeldDerived -> explode "held derived factor over dependencies that are not held with it: outside the reference semantics"
   | DocSem.UKind k -> k
 let show_res show = function
   | DocSem.Ok a -> show a
